@@ -54,13 +54,14 @@ namespace Dune {
         // matrix to put into dgeev
         auto matrixVector = std::make_unique<double[]>(N*N);
 
-        // copy matrix
+        // copy matrix in column-major (Fortran) order, such that LAPACK
+        // computes the right eigenvectors of matrix and not of its transpose
         int row = 0;
         for(int i=0; i<N; ++i)
         {
           for(int j=0; j<N; ++j, ++row)
           {
-            matrixVector[ row ] = matrix[ i ][ j ];
+            matrixVector[ row ] = matrix[ j ][ i ];
           }
         }
 
